@@ -155,3 +155,178 @@ Proof.
   - destruct (K y ltac:(lia)) as (Ky & _ & Py). rewrite K0, Ky. lia.
   - destruct (K x ltac:(lia)) as (Kx & _). destruct (K y ltac:(lia)) as (Ky & _). rewrite Kx, Ky. apply penc_mono; lia.
 Qed.
+
+(* ================================================================== beyond 2^53
+   An integer n with 2^e <= |n| < 2^(e+1), e >= 53, is exactly representable as a binary64 iff it is a multiple of
+   2^(e-52).  [exact_int] is that predicate (all |n| <= 2^53 included); on it float64(int64) of the model is exact, hence
+   strictly monotone. *)
+Definition exact_int (n : Z) : bool :=
+  let a := Z.abs n in
+  (a <=? 2 ^ 53) || ((a <? 2 ^ 64) && (a mod 2 ^ (Z.log2 a - 52) =? 0)).
+
+Definition benc (n e : Z) : Z := (e + 1023) * 2 ^ 52 + (n / 2 ^ (e - 52) - 2 ^ 52).
+
+Lemma big_quot n e : 52 <= e -> 2 ^ e <= n < 2 ^ (e + 1) -> n mod 2 ^ (e - 52) = 0 ->
+  n = 2 ^ (e - 52) * (n / 2 ^ (e - 52)) /\ 2 ^ 52 <= n / 2 ^ (e - 52) < 2 ^ 53.
+Proof.
+  intros He Hn Hm.
+  assert (Hp : 0 < 2 ^ (e - 52)) by (apply Z.pow_pos_nonneg; lia).
+  assert (H1 : 2 ^ e = 2 ^ (e - 52) * 2 ^ 52) by (rewrite <- Z.pow_add_r by lia; f_equal; lia).
+  assert (H2 : 2 ^ (e + 1) = 2 ^ (e - 52) * 2 ^ 53) by (rewrite <- Z.pow_add_r by lia; f_equal; lia).
+  assert (Hq : n = 2 ^ (e - 52) * (n / 2 ^ (e - 52))) by (apply Z.div_exact; lia).
+  split; [exact Hq|].
+  set (p := 2 ^ (e - 52)) in *. set (q := n / p) in *.
+  rewrite H1, H2, Hq in Hn. destruct Hn as [Hlo Hhi].
+  split; [apply (Z.mul_le_mono_pos_l _ _ p Hp); exact Hlo|apply (Z.mul_lt_mono_pos_l p); [exact Hp|exact Hhi]].
+Qed.
+
+Lemma rpr_big n e : 52 <= e <= 63 -> 2 ^ e <= n < 2 ^ (e + 1) -> n mod 2 ^ (e - 52) = 0 ->
+  round_pos_rational n 1 = Some (benc n e).
+Proof.
+  intros He Hn Hm.
+  destruct (big_quot n e (proj1 He) Hn Hm) as [Hq Hb].
+  assert (Hp : 0 < 2 ^ (e - 52)) by (apply Z.pow_pos_nonneg; lia).
+  assert (Hl : Z.log2 n = e) by (apply Z.log2_unique; lia).
+  unfold round_pos_rational, benc. rewrite Hl. change (Z.log2 1) with 0. rewrite Z.sub_0_r.
+  cbv zeta.
+  replace (0 <=? e) with true by (symmetry; apply Z.leb_le; lia).
+  replace (1 * 2 ^ e <=? n) with true by (symmetry; apply Z.leb_le; lia).
+  replace (Z.max (e - 52) (-1074)) with (e - 52) by lia.
+  replace (0 <=? e - 52) with true by (symmetry; apply Z.leb_le; lia).
+  cbv iota beta.
+  rewrite Z.mul_1_l. rewrite Hm.
+  replace (2 * 0 <? 2 ^ (e - 52)) with true by (symmetry; apply Z.ltb_lt; lia).
+  cbv iota.
+  replace (n / 2 ^ (e - 52) =? 2 ^ 53) with false by (symmetry; apply Z.eqb_neq; lia).
+  cbv iota beta.
+  replace (n / 2 ^ (e - 52) <? 2 ^ 52) with false by (symmetry; apply Z.ltb_ge; lia).
+  replace (2047 <=? e - 52 + 52 + 1023) with false by (symmetry; apply Z.leb_gt; lia).
+  f_equal. f_equal. f_equal. lia.
+Qed.
+
+Lemma benc_bounds n e : 52 <= e -> 2 ^ e <= n < 2 ^ (e + 1) -> n mod 2 ^ (e - 52) = 0 ->
+  (e + 1023) * 2 ^ 52 <= benc n e < (e + 1024) * 2 ^ 52.
+Proof.
+  intros He Hn Hm. destruct (big_quot n e He Hn Hm) as [_ Hb]. unfold benc.
+  change (2 ^ 53) with (2 * 2 ^ 52) in Hb. lia.
+Qed.
+
+Lemma benc_mono x y e1 e2 : 52 <= e1 -> 52 <= e2 ->
+  2 ^ e1 <= x < 2 ^ (e1 + 1) -> 2 ^ e2 <= y < 2 ^ (e2 + 1) ->
+  x mod 2 ^ (e1 - 52) = 0 -> y mod 2 ^ (e2 - 52) = 0 -> x < y -> benc x e1 < benc y e2.
+Proof.
+  intros H1 H2 Hx Hy Mx My Hxy.
+  destruct (Z.lt_trichotomy e1 e2) as [Hlt|[->|Hgt]].
+  - pose proof (benc_bounds x e1 H1 Hx Mx). pose proof (benc_bounds y e2 H2 Hy My).
+    assert ((e1 + 1024) * 2 ^ 52 <= (e2 + 1023) * 2 ^ 52) by (apply Z.mul_le_mono_nonneg_r; lia).
+    lia.
+  - destruct (big_quot x e2 H2 Hx Mx) as [Qx _]. destruct (big_quot y e2 H2 Hy My) as [Qy _].
+    assert (Hp : 0 < 2 ^ (e2 - 52)) by (apply Z.pow_pos_nonneg; lia).
+    unfold benc. set (p := 2 ^ (e2 - 52)) in *.
+    assert (x / p < y / p); [|lia].
+    apply (Z.mul_lt_mono_pos_l p); [exact Hp|]. rewrite <- Qx, <- Qy. exact Hxy.
+  - exfalso. assert (2 ^ (e2 + 1) <= 2 ^ e1) by (apply Z.pow_le_mono_r; lia). lia.
+Qed.
+
+(* positive exactly-representable integers below 2^64 *)
+Definition exact_pos (n : Z) : Prop := 0 < n /\ (n <= 2 ^ 53 \/ (n < 2 ^ 64 /\ n mod 2 ^ (Z.log2 n - 52) = 0)).
+Definition pk (n : Z) : Z := if n <=? 2 ^ 53 then penc n else benc n (Z.log2 n).
+
+Lemma log2_big n : 2 ^ 53 < n < 2 ^ 64 -> 53 <= Z.log2 n <= 63.
+Proof.
+  intros H. split.
+  - apply Z.log2_le_pow2; lia.
+  - assert (Z.log2 n < 64); [|lia]. apply Z.log2_lt_pow2; lia.
+Qed.
+
+Lemma pk_rpr n : exact_pos n -> round_pos_rational n 1 = Some (pk n) /\ 1023 * 2 ^ 52 <= pk n < 1087 * 2 ^ 52.
+Proof.
+  intros [Hpos Hn]. unfold pk. destruct (Z.leb_spec n (2 ^ 53)) as [Hle|Hgt].
+  - pose proof (penc_bounds n (conj Hpos Hle)) as Hb. split; [|lia].
+    assert (F := float_of_int_pos n (conj Hpos Hle)). unfold float_of_int in F.
+    replace (n =? 0) with false in F by (symmetry; apply Z.eqb_neq; lia).
+    replace (n <? 0) with false in F by (symmetry; apply Z.ltb_ge; lia).
+    rewrite Z.abs_eq in F by lia.
+    unfold penc in *. destruct (Z.eqb_spec n (2 ^ 53)) as [->|Hne]; [vm_compute; reflexivity|].
+    rewrite (rpr_enc n (Z.log2 n)); [reflexivity|apply log2_small; lia|apply log2_range; lia].
+  - destruct Hn as [Hn|[Hlt Hm]]; [lia|].
+    pose proof (log2_big n (conj Hgt Hlt)) as He. pose proof (log2_range n Hpos) as Hr.
+    split; [apply rpr_big; [lia|exact Hr|exact Hm]|].
+    pose proof (benc_bounds n (Z.log2 n) ltac:(lia) Hr Hm) as Hb.
+    assert (1023 * 2 ^ 52 <= (Z.log2 n + 1023) * 2 ^ 52) by (apply Z.mul_le_mono_nonneg_r; lia).
+    assert ((Z.log2 n + 1024) * 2 ^ 52 <= 1087 * 2 ^ 52) by (apply Z.mul_le_mono_nonneg_r; lia).
+    lia.
+Qed.
+
+Lemma pk_mono x y : exact_pos x -> exact_pos y -> x < y -> pk x < pk y.
+Proof.
+  intros [Px Hx] [Py Hy] Hxy. unfold pk.
+  destruct (Z.leb_spec x (2 ^ 53)) as [Lx|Gx]; destruct (Z.leb_spec y (2 ^ 53)) as [Ly|Gy]; try lia.
+  - apply penc_mono; lia.
+  - destruct Hy as [Hy|[Hlt My]]; [lia|].
+    pose proof (penc_bounds x (conj Px Lx)) as Bx.
+    pose proof (log2_big y (conj Gy Hlt)) as He. pose proof (log2_range y Py) as Hr.
+    destruct (big_quot y (Z.log2 y) ltac:(lia) Hr My) as [Qy Bq].
+    unfold benc.
+    destruct (Z.eq_dec (Z.log2 y) 53) as [E|NE].
+    + rewrite E in *. change (2 ^ (53 - 52)) with 2 in *.
+      assert (2 ^ 52 < y / 2) by lia. lia.
+    + assert (1077 * 2 ^ 52 <= (Z.log2 y + 1023) * 2 ^ 52) by (apply Z.mul_le_mono_nonneg_r; lia). lia.
+  - destruct Hx as [Hx|[Hltx Mx]]; [lia|]. destruct Hy as [Hy|[Hlty My]]; [lia|].
+    pose proof (log2_big x (conj Gx Hltx)). pose proof (log2_big y (conj Gy Hlty)).
+    apply benc_mono; try lia; try (apply log2_range; lia).
+Qed.
+
+Lemma exact_int_pos n : exact_int n = true -> n <> 0 -> exact_pos (Z.abs n).
+Proof.
+  unfold exact_int, exact_pos. cbv zeta. intros H Hn. split; [lia|].
+  apply orb_true_iff in H. destruct H as [H|H]; [left; apply Z.leb_le; exact H|right].
+  apply andb_true_iff in H. destruct H as [H1 H2]. split; [apply Z.ltb_lt; exact H1|apply Z.eqb_eq; exact H2].
+Qed.
+
+(* the key used by the numeric comparator is strictly increasing on ALL exactly representable integers *)
+Theorem float_of_int_mono_exact x y : exact_int x = true -> exact_int y = true -> x < y ->
+  fkey (float_of_int x) < fkey (float_of_int y).
+Proof.
+  intros Ex Ey Hxy.
+  assert (K : forall n, exact_pos n -> fkey (float_of_int n) = pk n /\ fkey (float_of_int (- n)) = - pk n /\ 0 < pk n).
+  { intros n Hn. destruct (pk_rpr n Hn) as [Hr Hb]. destruct Hn as [Hpos _].
+    unfold float_of_int.
+    replace (n =? 0) with false by (symmetry; apply Z.eqb_neq; lia).
+    replace (- n =? 0) with false by (symmetry; apply Z.eqb_neq; lia).
+    replace (n <? 0) with false by (symmetry; apply Z.ltb_ge; lia).
+    replace (- n <? 0) with true by (symmetry; apply Z.ltb_lt; lia).
+    rewrite Z.abs_opp, Z.abs_eq by lia. rewrite Hr.
+    unfold fkey. change two63 with (2048 * 2 ^ 52) in *. rewrite Z.add_0_l.
+    replace (pk n <? 2048 * 2 ^ 52) with true by (symmetry; apply Z.ltb_lt; lia).
+    replace (2048 * 2 ^ 52 + pk n <? 2048 * 2 ^ 52) with false by (symmetry; apply Z.ltb_ge; lia).
+    repeat split; lia. }
+  assert (K0 : fkey (float_of_int 0) = 0) by reflexivity.
+  destruct (Z.lt_trichotomy x 0) as [Hx0|[->|Hx0]]; destruct (Z.lt_trichotomy y 0) as [Hy0|[->|Hy0]]; try lia.
+  - pose proof (exact_int_pos x Ex ltac:(lia)) as Px. pose proof (exact_int_pos y Ey ltac:(lia)) as Py.
+    rewrite Z.abs_neq in Px, Py by lia.
+    destruct (K (- x) Px) as (_ & Kx & _). destruct (K (- y) Py) as (_ & Ky & _).
+    rewrite Z.opp_involutive in Kx, Ky. rewrite Kx, Ky.
+    assert (pk (- y) < pk (- x)) by (apply pk_mono; [exact Py|exact Px|lia]). lia.
+  - pose proof (exact_int_pos x Ex ltac:(lia)) as Px. rewrite Z.abs_neq in Px by lia.
+    destruct (K (- x) Px) as (_ & Kx & Qx). rewrite Z.opp_involutive in Kx. rewrite Kx, K0. lia.
+  - pose proof (exact_int_pos x Ex ltac:(lia)) as Px. pose proof (exact_int_pos y Ey ltac:(lia)) as Py.
+    rewrite Z.abs_neq in Px by lia. rewrite Z.abs_eq in Py by lia.
+    destruct (K (- x) Px) as (_ & Kx & Qx). rewrite Z.opp_involutive in Kx.
+    destruct (K y Py) as (Ky & _ & Qy). rewrite Kx, Ky. lia.
+  - pose proof (exact_int_pos y Ey ltac:(lia)) as Py. rewrite Z.abs_eq in Py by lia.
+    destruct (K y Py) as (Ky & _ & Qy). rewrite K0, Ky. lia.
+  - pose proof (exact_int_pos x Ex ltac:(lia)) as Px. pose proof (exact_int_pos y Ey ltac:(lia)) as Py.
+    rewrite Z.abs_eq in Px, Py by lia.
+    destruct (K x Px) as (Kx & _). destruct (K y Py) as (Ky & _). rewrite Kx, Ky. apply pk_mono; assumption.
+Qed.
+
+(* every |n| <= 2^53 is in the domain; beyond it exactly the multiples of the binade's unit in the last place *)
+Lemma exact_int_small n : - 2 ^ 53 <= n <= 2 ^ 53 -> exact_int n = true.
+Proof. intros H. unfold exact_int. cbv zeta. apply orb_true_iff. left. apply Z.leb_le. lia. Qed.
+
+Example exact_int_examples :
+  exact_int (2 ^ 53 + 2) = true /\ exact_int (2 ^ 53 + 1) = false /\ exact_int (2 ^ 63 - 1) = false
+  /\ exact_int (- 2 ^ 63) = true /\ exact_int (2 ^ 63 - 1024) = true /\ exact_int (2 ^ 63 - 512) = false
+  /\ exact_int (- (2 ^ 60 + 256)) = true /\ exact_int (2 ^ 60 + 128) = false /\ exact_int 9007199254740993 = false.
+Proof. vm_compute. repeat split; reflexivity. Qed.
